@@ -83,6 +83,7 @@ type tcase struct {
 	changes bool
 	excl    bool   // a malformed --exclude pattern ("[") is given (schema inspect/apply/diff)
 	fs, rs  []bool // fault streams: ExecContext calls of the bodies / of the RestoreFuncs (true = fails)
+	qs      []bool // fault stream of the reads of the state inside a session (api stage)
 	start   string // name of the start state
 	db      []obj
 	setup   []string // SQL that creates the start state
@@ -209,7 +210,7 @@ func b01(b bool) int {
 
 func (c *tcase) line() string {
 	var b strings.Builder
-	fmt.Fprintf(&b, "%s %s %d %d %d %s %s %d", c.norm, c.cmd, c.latest, b01(c.changes), b01(c.excl), bitsTokens(c.fs), bitsTokens(c.rs), len(c.db))
+	fmt.Fprintf(&b, "%s %s %d %d %d %s %s %s %d", c.norm, c.cmd, c.latest, b01(c.changes), b01(c.excl), bitsTokens(c.fs), bitsTokens(c.qs), bitsTokens(c.rs), len(c.db))
 	for _, o := range c.db {
 		fmt.Fprintf(&b, " %s %s %s %d %d", o.kind[:1], hx(o.name), hx(o.tbl), o.rows, b01(len(o.kind) == 1))
 	}
@@ -623,6 +624,7 @@ type result struct {
 	err             error
 	bodyCalls       int // api stage: ExecContext calls of bodies / of RestoreFuncs seen
 	restCalls       int
+	readCalls       int  // api stage: reads of the state inside a session seen
 	restoreReported bool // api stage: the returned error carries the injected restore failure
 }
 
